@@ -66,6 +66,7 @@ fn main() {
         ("timing", "replay") => timing::replay(&args, &mut s),
         ("timing", "record") => timing::record(&args, &mut s),
         ("hitobj", "replay") => hitobj::replay(&args, &mut s),
+        ("hitobj", "record") => hitobj::record(&args, &mut s),
         ("events", "replay") => events::replay(&args, &mut s),
         ("events", "record") => events::record(&args, &mut s),
         ("curve", "replay") => curve::replay(&args, &mut s),
